@@ -675,7 +675,7 @@ def _parse_req(tokens):
         for _ in range(nc):
             conts.append(tuple(int(next(it)) for _ in range(6)))
         usages.append(dict(rg=rg, req=None if rq == "~" else int(rq), conts=conts))
-    return dict(supi=supi, nf=nf, seq=seq, trigs=trigs, usages=usages, one=one)
+    return dict(supi=supi, nf=nf, seq=seq, trigs=trigs, usages=usages, one=one, uri=uri)
 
 
 def explore_c06(ctx, res, replay_ops=None):
@@ -931,7 +931,8 @@ def explore_c12(ctx, res, replay_ops=None):
                 known.setdefault(rq["supi"], set())
                 if not one_time:
                     known[rq["supi"]].add(loc)
-                uri[rq["supi"]] = True
+                if rq["uri"] == "1":
+                    uri[rq["supi"]] = True      # the consumer registered its address; a later create without one leaves it registered
             elif st // 100 == 2:
                 res.violation("oracle", "C12: create answered %d, expected 201" % st, hist())
             elif int(rq["one"]) & 6:
@@ -960,6 +961,11 @@ def explore_c12(ctx, res, replay_ops=None):
             sup_hex = parts[0].encode().hex() if parts[0] else "-"
             if ok_form and sup_hex in refused_only and sup_hex not in known:
                 res.outside_domain["recharge-after-refused-create-only"] += 1
+            elif ok_form and sup_hex in known and not uri.get(sup_hex):
+                # no consumer of this subscriber has registered an address: accepted, nobody to notify
+                if st != 204 or o.f.get("notif") != "-":
+                    res.violation("oracle", "C12: recharge of a known subscriber without a registered address answered %d notif=%s" % (
+                        st, o.f.get("notif")), hist())
             elif ok_form and sup_hex in known:
                 exp = "%s:%d" % (("/n/" + parts[0]).encode().hex(), int(parts[1]))
                 if st != 204 or o.f.get("notif") != exp:
